@@ -108,9 +108,19 @@ fn check_esh(report: &mut Report, pname: &str, c: &EshCall, d: u64, replay: &J) 
     let err = c.mom_out.iter().zip(&want).map(|(a, b)| (a - b).abs()).fold(0.0, f64::max);
     // conditioning: for large delta the update is p' ~ ghat with relative error ~ eps * exp(delta)... the formula is stable; keep 1e-12 * scale
     let delta = c.step.abs() * norm(&c.grad) / (c.grad.len() as f64 - 1.0);
-    let tol = 1e-12 * (1.0 + delta);
+    // when the momentum is (almost) anti-parallel to the gradient both terms of the raw update cancel: rounding errors
+    // of size eps in either term are amplified by (|coefficients|) / |raw update| before the renormalisation
+    let amplification = {
+        let gn = norm(&c.grad);
+        let alpha: f64 = c.mom_in.iter().zip(&c.grad).map(|(p, g)| p * g / gn).sum();
+        let zeta = (-(c.step * gn / (c.grad.len() as f64 - 1.0))).exp();
+        let cg = (1.0 - zeta) * (1.0 + zeta + alpha * (1.0 - zeta));
+        let raw: Vec<f64> = c.mom_in.iter().zip(&c.grad).map(|(p, g)| cg * g / gn + 2.0 * zeta * p).collect();
+        (1.0 + cg.abs() + 2.0 * zeta) / norm(&raw).max(1e-300)
+    };
+    let tol = 1e-12 * (1.0 + delta) + 256.0 * f64::EPSILON * amplification;
     if !(err <= tol) {
-        report.violation(sig("esh_update_differs_from_closed_form"), format!("draw {d}: max component error {err:e} (delta {delta})"), replay.clone());
+        report.violation(sig("esh_update_differs_from_closed_form"), format!("draw {d}: max component error {err:e} (delta {delta}, amplification {amplification:e}, tolerance {tol:e})"), replay.clone());
         return false;
     }
     let tol_ke = 1e-11 * (1.0 + dke.abs() + delta * (c.grad.len() as f64));
